@@ -147,16 +147,14 @@ def run(ctx):
   ctx.log("TLC enumerated %d trees -> %d (tree, spelling) pairs and %d fragments (%d distinct states) in %.1fs"
           % (len(space["items"]), len(pairs), len(frags), model["distinct"], model["wall"]))
   extra = {"doc": doc}
-  files = fnspec.run_cases("fn_formulatext.py", items, ctx.workdir, extra=extra, nshards=min(PARALLEL, 8 if ctx.quick else 16))
-  # C->S: Hypothesis text for X, deeper random trees for F
+  # C->S: Hypothesis text for X, deeper random trees for F (generated by the workers from the seed)
   small = [p for p in pairs if len(json.dumps(p[0])) < 120][:40]
-  per = 250
+  per = 125 if ctx.quick else 250
   more = [{"hyp": ctx.seed * 1000003 + k, "n": per, "trees": [list(p) for p in small]}
           for k in range(N_HYP[ctx.tier] // per)]
   more += [{"rand": ctx.seed * 7919 + 17 * k + 1, "n": per} for k in range(N_RAND[ctx.tier] // per)]
-  rfiles = fnspec.run_cases("fn_formulatext.py", more, ctx.workdir, extra=extra, tag="more",
-                            nshards=min(PARALLEL, 2 if ctx.quick else 16))
-  failures, n, wall = fnspec.judge("Trace_FormulaText", files + rfiles, ctx.workdir, parallel=PARALLEL)
+  files = fnspec.run_cases("fn_formulatext.py", more + items, ctx.workdir, extra=extra, nshards=min(PARALLEL, 16))
+  failures, n, wall = fnspec.judge("Trace_FormulaText", files, ctx.workdir, parallel=PARALLEL)
   ctx.log("TLC judged %d recorded runs in %.1fs" % (n, wall))
 
   _selftest(ctx, files[0])
@@ -168,11 +166,11 @@ def run(ctx):
            "spellings": {}, "set_by": {}}
   samples = []
   nontrivial = 0
-  for f in files + rfiles:
+  for f in files:
     cases = json.load(open(f))
     for c in cases:
       inp, out = c["inp"], c["out"]
-      kind = "hypothesis_texts" if inp["xkind"] == "text" else ("random_trees" if f in rfiles else "enumerated_cases")
+      kind = {"hyp": "hypothesis_texts", "rand": "random_trees"}.get(inp.get("src"), "enumerated_cases")
       stats[kind] += 1
       stats["spellings"][inp["spell"]] = stats["spellings"].get(inp["spell"], 0) + 1
       stats["set_by"][inp["how"]] = stats["set_by"].get(inp["how"], 0) + 1
